@@ -154,23 +154,44 @@ Theorem C12_configs_agree gA gC c flA opA lgA flC opC lgC m p s size args :
 Proof. exact (configs_agree_nf gA gC c flA opA lgA flC opC lgC m p s size args). Qed.
 Print Assumptions C12_configs_agree.
 
-(* ---- known finding F-C12f.  Full statement (FALSE for sc_io_read_at / sc_io_write_at without MPI I/O):
-          forall ..., g_at cfg wr g q size a = (g', r) -> (r_cls r = SUCCESS cfg <-> w_fail (g_w g') = w_fail (g_w g)).
-        What holds: no failure gives SUCCESS; SUCCESS after a failure only together with a positive (short) count. *)
-Theorem C12_at_success_partial cfg wr g q size a g' r : plan_ok (w_plan (g_w g)) -> 0 <= a_count a -> 0 < size ->
+(* ---- explicit-offset calls under EVERY fault plan (sc_io_read_at / sc_io_write_at without MPI I/O, configurations A and C):
+        the class is SUCCESS iff no stdio call of the operation (ftell, fseek, fread/fwrite, position-restoring fseek) ended
+        with an error; ocount lies in 0..count and is what was transferred: a write put exactly the first ocount elements of
+        the data into the file at the offset (at the end in mode "ab") and changed nothing else, a read left the file as it
+        was and stored exactly the ocount whole elements found at the offset; no context, no stream appears or disappears.
+        (F-C12f, repaired by 3510a9a: before, a partial transfer with errno set returned SUCCESS, and the first conjunct was
+        false - see C12_at_old_tail_refuted.) *)
+Theorem C12_at_success_iff cfg wr g q size a g' r : plan_ok (w_plan (g_w g)) -> 0 <= a_count a -> 0 < size ->
   g_at cfg wr g q size a = (g', r) ->
-  (w_fail (g_w g') = w_fail (g_w g) -> r_cls r = SUCCESS cfg)
-  /\ (r_cls r = SUCCESS cfg -> w_fail (g_w g') = w_fail (g_w g) \/ 0 < r_ocount r)
+  (r_cls r = SUCCESS cfg <-> w_fail (g_w g') = w_fail (g_w g))
+  /\ 0 <= r_ocount r <= a_count a
+  /\ (if wr then
+        r_buf r = []
+        /\ ((r_ocount r = 0 /\ content (g_w g') = content (g_w g))
+            \/ exists m p, g_s0 g = Some (mkS m p) /\ m <> MRead
+                 /\ content (g_w g') = put (content (g_w g)) (at_pos m (content (g_w g)) (a_off a))
+                                           (firstn (Z.to_nat (size * r_ocount r)) (a_data a)))
+      else
+        content (g_w g') = content (g_w g)
+        /\ r_buf r = firstn (Z.to_nat (size * r_ocount r)) (skipn (Z.to_nat (a_off a)) (content (g_w g))))
   /\ w_ledger (g_w g') = w_ledger (g_w g) /\ w_open (g_w g') = w_open (g_w g).
-Proof. exact (at_success_char cfg wr g q size a g' r). Qed.
-Print Assumptions C12_at_success_partial.
+Proof. exact (at_success_iff cfg wr g q size a g' r). Qed.
+Print Assumptions C12_at_success_iff.
 
-Theorem C12_at_success_iff_refuted :
-  exists g a g' r, plan_ok (w_plan (g_w g)) /\ 0 <= a_count a /\ g_at CfgA true g 0 1 a = (g', r)
-                   /\ r_cls r = SUCCESS CfgA /\ r_ocount r = 1 /\ a_count a = 4
-                   /\ w_fail (g_w g') = w_fail (g_w g) + 1.
-Proof. exact at_success_iff_refuted. Qed.
-Print Assumptions C12_at_success_iff_refuted.
+(* the tail of both functions before repair 3510a9a (`at_tail_old`: the class of the restoring fseek's errno replaces the
+   class of the transfer) refutes the first conjunct of C12_at_success_iff: fwrite stores one of four elements and sets
+   ENOSPC, the fseek back succeeds: class SUCCESS with one failed stdio call.  The code as it is (`g_at` = `g_at_with at_tail`)
+   returns the class of ENOSPC on the same input. *)
+Theorem C12_at_old_tail_refuted :
+  plan_ok (w_plan (g_w g_partial)) /\ 0 <= a_count a_partial
+  /\ (exists g' r, g_at_with at_tail_old CfgA true g_partial 0 1 a_partial = (g', r)
+                   /\ r_cls r = SUCCESS CfgA /\ r_ocount r = 1 /\ a_count a_partial = 4
+                   /\ w_fail (g_w g') = w_fail (g_w g_partial) + 1)
+  /\ (exists g' r, g_at CfgA true g_partial 0 1 a_partial = (g', r)
+                   /\ r_cls r = errclass CfgA e_ENOSPC /\ r_cls r <> SUCCESS CfgA /\ r_ocount r = 1
+                   /\ w_fail (g_w g') = w_fail (g_w g_partial) + 1).
+Proof. exact at_old_tail_refuted. Qed.
+Print Assumptions C12_at_old_tail_refuted.
 
 (* ---- known finding F-C12e.  C12_coll_write says where the fallback puts the blocks: at the end of rank 0's stream,
         whatever the offsets.  Full statement (FALSE in configuration C): the file afterwards is `put` of every block at its
